@@ -47,11 +47,14 @@ Print Assumptions C06_function_operator_tables_exact.
    section order agrees with the index space; the output validates) is false of the faithful model in the
    classes below; outside them it is decided per history by CheckReidx.verdict06 on the real output. *)
 
-(* D02: converting local functions to imports in descending order: import-section order and index order disagree *)
-Example C06_refuted_D02 :
+(* former D02 (converting local functions to imports in descending order: import-section order and index order
+   disagreed; repaired: the import section is emitted in index order): the witness now satisfies the property, the
+   import converted second (fingerprint 22, function 0) comes first in the import section *)
+Example C06_former_D02_witness_holds :
   let c := self_r [] [11; 12; 99] [] [] [LocalToImport 1 21; LocalToImport 0 22]
              [mkSite KCode SF 0 (OFunc 2); mkSite KCode SF 1 (OFunc 2)] in
-  agree c = true /\ dom_of (verdict06 c) = true /\ holds_of (verdict06 c) = false /\ known_D02 c = true.
+  agree c = true /\ dom_of (verdict06 c) = true /\ holds_of (verdict06 c) = true
+  /\ option_map e_imports (o_enc c) = Some [(0, 22); (0, 21)].
 Proof. vm_compute. repeat split; reflexivity. Qed.
 (* D05: a `ref.func` expression item of an element segment is copied although its target moved *)
 Example C06_refuted_D05 :
@@ -74,8 +77,9 @@ Proof. vm_compute. repeat split; reflexivity. Qed.
 (* ---- the binding theorem over every reachable state (Proofs/ReidxInv.v) ----
    [wf] (stored ids are positions, the import-section entries are linked one-to-one to the import items, the
    counters bound the original region) holds of every base module and is preserved by every edit of the API
-   model; hence, after ANY history, outside the class D02 (which the premise names as an executable
-   predicate on the reached state; D06 / D26 are repaired and need no premise any more), every live item's id is mapped to the index at which Wasm's index rule
+   model; hence, after ANY history, with no premise left (the former classes D02 / D06 / D26 are repaired: the import
+   section is emitted in index order and deleted items are dropped), every live item's id is mapped to the index at
+   which Wasm's index rule
    (imports of the kind in import-section order, then the emitted locals) finds exactly that item; deleted items
    have no map entry (a remaining reference makes encode panic) and nothing deleted is left in the space. *)
 Theorem C06_wf_is_an_invariant_of_every_edit :
@@ -87,16 +91,16 @@ Proof. exact wf_mk_base. Qed.
 Print Assumptions C06_wf_holds_of_every_base_module.
 Theorem C06_binding_after_any_history :
   forall base h m rets, wf base -> run_pref base h [] = (m, rets, false) ->
-  forall x, okD02 x m = true ->
+  forall x,
   forall l mp, index_space (get_sp m x) = Ok (l, mp) ->
   forall it, In it (s_items (get_sp m x)) -> it_del it = false ->
   exists q, lookup mp (it_id it) = Some q /\ nthN (space_of_model m l x) q = Some (it_fp it).
 Proof. exact reachable_binding. Qed.
 Print Assumptions C06_binding_after_any_history.
 (* the same on what the encoder model emits, in the checker's vocabulary ([designates] = Wasm's index rule on
-   the emitted import section and local sections), for every case outside the known class D02 *)
+   the emitted import section and local sections), for every case (no known class is excluded any more) *)
 Theorem C06_binding_on_the_emitted_module :
-  forall (c : rcase) e, known_D02 c = false ->
+  forall (c : rcase) e,
   encode (final_model c) (dead_exports (h_ops c)) (sites c) = Ok e ->
   forall x l mp, index_space (get_sp (final_model c) x) = Ok (l, mp) ->
   (forall it, In it (s_items (get_sp (final_model c) x)) -> it_del it = false ->
@@ -105,6 +109,7 @@ Theorem C06_binding_on_the_emitted_module :
   (forall it, In it l -> it_del it = false).
 Proof. exact case_binding_outside_known_classes. Qed.
 Print Assumptions C06_binding_on_the_emitted_module.
-(* the premises are satisfiable after a six-edit history touching all three spaces, and okD02 cannot be dropped *)
+(* the premises are satisfiable after a six-edit history touching all three spaces; the former D02 witness (an import
+   added before a conversion) is bound correctly *)
 Example C06_binding_nonvacuous : True.
-Proof. pose proof reachable_binding_nonvacuous. pose proof reachable_binding_needs_okD02. exact I. Qed.
+Proof. pose proof reachable_binding_nonvacuous. pose proof reachable_binding_former_D02_witness. exact I. Qed.
